@@ -17,10 +17,8 @@
 // proof needs are wrapped as `-> (o: T) ensures .. { body }` (ghost result naming only).
 use vstd::prelude::*;
 verus! {
+//@prelude std_combinators
 
-pub assume_specification<T, E, U, F: FnOnce(T) -> Result<U, E>>[Result::<T, E>::and_then](o: Result<T, E>, f: F) -> (r: Result<U, E>)
-    requires o is Ok ==> f.requires((o->Ok_0,))
-    ensures o is Err ==> r is Err && r->Err_0 == o->Err_0, o is Ok ==> f.ensures((o->Ok_0,), r);
 pub assume_specification<Idx: Clone>[<core::ops::Range<Idx> as Clone>::clone](r: &core::ops::Range<Idx>) -> (o: core::ops::Range<Idx>)
     ensures vstd::pervasive::cloned(r.start, o.start), vstd::pervasive::cloned(r.end, o.end);
 
